@@ -77,7 +77,7 @@ class C18(PropCheck):
             "multi-line, with traceback, group), x all 8 option combinations; non-trivial = the tree has a context with an "
             "inner stack or children; distinct = (tree, options)")
     manifest = {
-        "text": "Lean (over the marker table regenerated from _types.py on every run): C18_lines (every formatted line ends in exactly one newline and contains no other, given newline-free payloads), C18_str (str = concatenation of format()), C18_markers_two_wide / C18_markers_decodable (all markers are two characters; the Unicode markers that can start a line at the same grammar position are pairwise distinct) / C18_indicator_is_start_child, C18_ascii (ASCII output = Unicode output with each marker replaced through a fixed map), C18_no_contexts (show_contexts=False prints exactly header, one or two lines per visible frame, leaf, error), C18_hidden_frames (a hidden frame contributes no line unless show_hidden_frames), C18_frame_blocks (the frame series is recoverable: splitting the body at start-frame markers gives one block per visible frame, in order). The full-depth read-back of contexts / inner stacks / children is executed on the real output by the harness reader on every run (not proved). Tie: real format() lines vs model lines, string equality, 8 option combinations.",
+        "text": "Lean (over the marker table regenerated from _types.py on every run): C18_lines (every formatted line ends in exactly one newline and contains no other, given newline-free payloads), C18_str (str = concatenation of format()), C18_markers_two_wide / C18_markers_decodable (all markers are two characters; the Unicode markers that can start a line at the same grammar position are pairwise distinct) / C18_indicator_is_start_child, C18_ascii (ASCII output = Unicode output with each marker replaced through a fixed map), C18_no_contexts (show_contexts=False prints exactly header, one or two lines per visible frame, leaf, error), C18_hidden_frames (a hidden frame contributes no line unless show_hidden_frames), C18_frame_blocks, C18_context_blocks (one level down: inside a visible frame's block, with the frame marker removed, the lines after the header split at start-of-context markers into exactly the visible contexts' blocks; the frame's source line is not absorbed) and C18_inner_stack_frames (inside a visible context with an inner stack, the lines after the context's own line split into exactly the inner stack's visible frames; its leaf and error lines and all lines of the context's children are not absorbed), (the frame series is recoverable: splitting the body at start-frame markers gives one block per visible frame, in order). The full-depth read-back of contexts / inner stacks / children is executed on the real output by the harness reader on every run (not proved). Tie: real format() lines vs model lines, string equality, 8 option combinations.",
         "note": "Partial: the nesting below the frame level (contexts, inner stacks, children) is read back by an executable reader on the real text, not by a Lean theorem; the child-kind and empty-inner-stack erasures are part of the skeleton (DESIGN §4 C18). Payload strings (names, source lines, reprs, traceback text) are opaque and assumed single-line.",
     }
     assumptions = ["names, source lines and reprs contain no newline", "linecache / traceback.format_exception / repr are used as given"]
